@@ -195,7 +195,8 @@ example : exB3.Valid exB3.save ∧ (exB.require 4).2.Valid exB.save ∧ ¬ exB3.
 /-- `C07_run_sim`, restricted to the rules that touch the input (`_partial`: see the header).
     For every atom — `any`, `one`/`not_one`, `range`/`not_range`, `ranges`, `string`, `istring`, `bytes`,
     `eof`, `bof`, `bol`, `eol` and `eolf` under each of the five end-of-line policies, `success`, `failure`,
-    `everything`, `require`, i.e. every atom of the matcher model except the contrib ones `utf8::range` and
+    `everything`, `require`, contrib's `rep_one_min_max` (its counting loop over `in.size( Max + 1 )` bytes, which on a
+    buffer may be MORE than `Max + 1`), i.e. every atom of the matcher model except the contrib ones `utf8::range` and
     `integer::maximum_rule` (`Atom.overBuffer`) — its `match( in )` over a buffer input in ANY invariant state (any
     maximum, Chunk, window position, reader schedule) either ends in `std::overflow_error` (the
     invariant still holds: no corruption), or returns exactly the result that the same atom returns
@@ -209,7 +210,14 @@ theorem C07_run_sim_partial (a : Atom) (b : Buffer) (h : Inv b) (ha : a.overBuff
     | (.done, r, b') => Inv b' ∧ b'.memCtx = b.memCtx ∧ atomStep b.memCtx a b.view = (r, b'.view) :=
   atom_sim a b h ha
 
-example : (Atom.string [99, 100, 101]).overBuffer = true ∧ Atom.everything.overBuffer = true ∧ Atom.eol.overBuffer = true := by decide
+example : (Atom.string [99, 100, 101]).overBuffer = true ∧ Atom.everything.overBuffer = true ∧ Atom.eol.overBuffer = true ∧
+    (Atom.repOne 1 3 100).overBuffer = true := by decide
+/-- `rep_one_min_max` on "aaaba" with 5 bytes already buffered: `in.size( 3 )` answers 5, not 3 — `< 1, 2, 'a' >` counts 3 > Max and
+    fails where the memory input (which looks at 3 bytes) counts 3 > Max and fails too; `< 1, 3, 'a' >` matches and leaves both at 3. -/
+def exA : Buffer := ((Buffer.init #[97, 97, 97, 98, 97] [] 8 8).require 5).2
+example : exA.occupied = 5 ∧ (atomStepBuf (.repOne 1 2 97) exA).2.1 = false ∧ (atomStep exA.memCtx (.repOne 1 2 97) exA.view).1 = false ∧
+    (atomStepBuf (.repOne 1 3 97) exA).2.1 = true ∧ (atomStepBuf (.repOne 1 3 97) exA).2.2.cur.byte = 3 ∧
+    (atomStep exA.memCtx (.repOne 1 3 97) exA.view).2.cur.pos = 3 := by decide
 /-- `string< 'c', 'd', 'e' >` at logical position 3 of `exB` after the discard: matches, the reader
     (1 byte per call) is called as often as needed, the position advances to 6 on both sides. -/
 example : (atomStepBuf (.string [99, 100, 101]) exB3.discard).1 = .done ∧
